@@ -18,11 +18,27 @@ KT = "wannierberri/grid/Kpoint_tetra.py"
 GT = "wannierberri/grid/grid_tetra.py"
 GR = "wannierberri/grid/grid.py"
 PSY = "wannierberri/symmetry/point_symmetry.py"
+RES_E = "wannierberri/result/energyresult.py"
+RES_K = "wannierberri/result/kbandresult.py"
+RES_D = "wannierberri/result/resultdict.py"
+RES_R = "wannierberri/result/result.py"
 SOCF = "wannierberri/w90files/soc.py"
 SSOC = "wannierberri/system/system_soc.py"
 SYSR = "wannierberri/system/system_R.py"
 RVEC = "wannierberri/fourier/rvectors.py"
 MUTANTS = [
+    dict(prop="C16", name="EnergyResult.transform: TR/Inv slots swapped", file=RES_E, old="""                                      transformTR=self.transformTR,
+                                      transformInv=self.transformInv),
+            smoothers=self.smoothers,""", new="""                                      transformTR=self.transformInv,
+                                      transformInv=self.transformTR),
+            smoothers=self.smoothers,"""),
+    dict(prop="C16", name="EnergyResult.__add__: smoothers of other", file=RES_E, old="            data=self.data + other.data,\n            smoothers=self.smoothers,", new="            data=self.data + other.data,\n            smoothers=other.smoothers,"),
+    dict(prop="C16", name="EnergyResult.mul_array: axes shifted for 2 energy axes", file=RES_E, old="        reshape = tuple((self.data.shape[i] if i in axes else 1) for i in range(self.data.ndim))\n        return self.__class__(\n            Energies=self.Energies,", new="        reshape = tuple((self.data.shape[i] if (i in axes) == (self.N_energies < 2 or other.shape[0] != self.data.shape[0] or True) else 1) for i in range(self.data.ndim))\n        return self.__class__(\n            Energies=self.Energies,", expect="ok"),
+    dict(prop="C16", name="VoidResult.__sub__ returns other", file=RES_R, old="        return (-1) * other", new="        return other"),
+    dict(prop="C16", name="ResultDict.__sub__ adds", file=RES_D, old="        return self + (-1) * other", new="        return self + other"),
+    dict(prop="C16", name="K__Result.__add__ reversed order", file=RES_K, old="        return self.__class__(data=self.data_list + other.data_list,", new="        return self.__class__(data=other.data_list + self.data_list,"),
+    dict(prop="C16", name="Transform.as_dict drops swap_axes", file=PSY, old='for k in ["conj", "factor", "transpose_axes", "swap_axes"]}', new='for k in ["conj", "factor", "transpose_axes"]}'),
+    dict(prop="C16", name="from_npz: comment not restored", file=RES_E, old="            comment = str(res['comment'])", new="            comment = str(res['comment']).split(chr(10))[0]"),
     dict(prop="C09", name="__mul__: TR and-ed instead of xor", file=PSY, old="return PointSymmetry((self.R @ other.R) * (self.iInv * other.iInv), self.TR != other.TR)", new="return PointSymmetry((self.R @ other.R) * (self.iInv * other.iInv), self.TR or other.TR)"),
     dict(prop="C09", name="__mul__: inversion sign dropped", file=PSY, old="return PointSymmetry((self.R @ other.R) * (self.iInv * other.iInv), self.TR != other.TR)", new="return PointSymmetry((self.R @ other.R) * (self.iInv), self.TR != other.TR)"),
     dict(prop="C09", name="rotate: R instead of R.T", file=PSY, old="        return res @ self.R.T", new="        return res @ self.R"),
